@@ -22,7 +22,9 @@ def survive_cases(rng, tier):
     for _ in range(6 if tier == "quick" else 60):
         for proto in ("tcp", "rtu"):
             n = rng.randrange(1, 5)
-            end = rng.choice(["e:Other", "e:PermissionDenied", "e:ConnectionReset", "r"])
+            end = rng.choice(["e:Other", "e:PermissionDenied", "e:ConnectionReset", "r", "h", "h"])
+            if end == "h":
+                n = rng.randrange(2, 5)       # overlapping connection setups need at least two peers
             conns, want = [], []
             for k in range(n):
                 fs = []
@@ -32,7 +34,7 @@ def survive_cases(rng, tier):
                 conns.append("%s/%s/%s/%s" % (fs[0][0].hex(), fs[1][0].hex(), fs[0][1], fs[1][1]))
                 want.append("first=%s second=%s" % (fs[0][0].hex(), fs[1][0].hex()))      # WriteSingleRegister is echoed
             cs.append(Case("SURVIVE %s %s %s" % (proto, end, "|".join(conns)),
-                           {"k": "survive", "proto": proto, "want": "serve=%s | %s" % ("LISTENING" if end == "r" else "E:" + end[2:], " | ".join(want)), "end": end, "n": n}))
+                           {"k": "survive", "proto": proto, "want": "serve=%s | %s" % ("LISTENING" if end in ("r", "h") else "E:" + end[2:], " | ".join(want)), "end": end, "n": n}))
     return cs
 
 
@@ -40,7 +42,7 @@ def survive_oracle(c):
     r = c.impl or ""
     if r == c.meta["want"]:
         return None
-    return "connections established before another connection's setup ended as %s: got %s; every one of them must still be served (%s)" % (
+    return "connections whose setup overlaps with or precedes another connection (scenario %s): got %s; every one of them must be served (%s)" % (
         c.meta["end"], r[:160], c.meta["want"][:120])
 
 
